@@ -423,6 +423,7 @@ pub fn run(tier: Tier) -> i32 {
         digits(idx / dirty.len() as u64, &radices, &mut d);
         let p = params_of(&menus, &d);
         let mut buf = dirty[di].clone();
+        let _g = crate::engine::watch::guard("params", |s| s.push_str(&p.json().to_string()));
         acc.evals += 1;
         acc.states += 1;
         match guarded(|| run_real(&p, &mut buf, None)) {
